@@ -3,3 +3,6 @@ pub use base::*;
 
 pub mod dense;
 pub mod sparse;
+
+#[cfg(yui_verif)]
+pub mod verif;
